@@ -4,3 +4,4 @@ pub mod c16;
 pub mod c12;
 pub mod c11;
 pub mod c06;
+pub mod c08;
